@@ -468,8 +468,13 @@ def check(ctx):
         spec_bits = m_spec[3:]
         if t is not None:
             rp = pyre.compile(re_render(t), pyre.S)
-            ref = "".join("1" if rp.fullmatch(s) else "0" for s in strs)
-            ctx.count("eval_spec_vs_re", len(strs))
+            try:   # CPython's backtracking matcher explodes on nested loops such as (((a*)+)+)+
+                with time_limit(1.0):
+                    ref = "".join("1" if rp.fullmatch(s) else "0" for s in strs)
+                ctx.count("eval_spec_vs_re", len(strs))
+            except Budget:
+                ref = spec_bits
+                ctx.count("re_fullmatch_gave_up_backtracking")
             if ref != spec_bits:
                 j = next(i for i in range(len(strs)) if ref[i] != spec_bits[i:i + 1])
                 ctx.disagree("spec-vs-re.fullmatch", {"tree": syn_enc(t), "string": strs[j]}, ref[j], spec_bits[j:j + 1])
@@ -502,7 +507,7 @@ def check(ctx):
         if bits != spec_bits:
             j = next(i for i in range(len(strs)) if bits[i] != spec_bits[i:i + 1])
             ctx.fail("accept:automaton-differs-from-language",
-                     f"compile({key!r}) {'accepts' if bits[j] == '1' else 'rejects'} {strs[j]!r}, the expression does {'' if spec_bits[j] == '1' else 'not '}denote it",
+                     f"compile({key!r}) {'accepts' if bits[j] == '1' else ('rejects' if bits[j] == '0' else 'fails on')} {strs[j]!r}, the expression does {'' if spec_bits[j] == '1' else 'not '}denote it",
                      key, string=strs[j])
         # scanner
         sc_model = m_scan[3:].split(" ") if m_scan.startswith("ok") else None
